@@ -13,7 +13,7 @@
    Layer-W store model TTN/Store.v, the zero-padded root legs), C the control flow of
    tensor_product_expectation_value with the two defect flags.
    Definitions only; proofs are in SymProofs.v. *)
-From Coq Require Import List Arith Bool String Ascii.
+From Coq Require Import List Arith Bool String Ascii ZArith.
 From PTN Require Import Tree.RTree.
 From PTN Require TTN.Store.
 Import ListNotations.
@@ -135,6 +135,11 @@ Fixpoint sub_nodes (bond phys : nat -> nat) (k : nat) (par : option nat) (t : rt
 (* add_trivial_root: eye(k).reshape(k, k, 1); children (ket root, bra root) in that order *)
 Definition root_node (k : nat) (t : rtree) : dnode :=
   {| dn_id := DRoot; dn_parent := None; dn_children := [DN (rid t) Ket; DN (rid t) Bra]; dn_shape := [k; k; 1] |}.
+
+(* what from_ttns rejects: 1 = ValueError of positivity_check(root_bond_dim) in add_trivial_root
+   (checked first), 2 = KeyError "There is no root!" for an empty state, 0 = accepted *)
+Definition from_ttns_guard (k : Z) (t : option rtree) : nat :=
+  if Z.leb k 0 then 1 else match t with None => 2 | Some _ => 0 end.
 
 (* from_ttns(ttns, root_id, k): all node records in dictionary order *)
 Definition doubled (bond phys : nat -> nat) (k : nat) (t : rtree) : list dnode :=
